@@ -61,13 +61,13 @@ func (s *recStatser) get(name string) uint64 {
 	return uint64(s.vals[name])
 }
 
-const stepTimeout = 20 * time.Second
+const stepTimeout = 8 * time.Second
 
 // dgramOracle: ParseFloat table for every line of the datagram (same candidate rule as
 // lexgen.OracleTable, per line).
-func dgramOracle(dg string) string {
+func dgramOracle(msgs []string) string {
 	cands := map[string]bool{}
-	for _, line := range strings.Split(dg, "\n") {
+	for _, line := range strings.Split(strings.Join(msgs, "\n"), "\n") {
 		if i := strings.IndexByte(line, ':'); i >= 0 {
 			rest := line[i+1:]
 			if j := strings.IndexByte(rest, '|'); j >= 0 {
@@ -102,8 +102,26 @@ func lineCount(dg string) int {
 	return n
 }
 
+// cutAt splits the data at the given offsets (clamped, sorted by construction of the generator).
+func cutAt(data string, cuts []int) []string {
+	var out []string
+	prev := 0
+	for _, c := range cuts {
+		if c < prev {
+			c = prev
+		}
+		if c > len(data) {
+			c = len(data)
+		}
+		out = append(out, data[prev:c])
+		prev = c
+	}
+	return append(out, data[prev:])
+}
+
 func runDgram(in input) hlib.Case {
 	dg := lexgen.FromInts(in.Data)
+	msgs := cutAt(dg, in.Cuts)
 	c := hlib.Case{Input: in}
 	h := &countingHandler{}
 	st := &recStatser{flush: make(chan time.Duration), vals: map[string]float64{}}
@@ -131,12 +149,14 @@ func runDgram(in input) hlib.Case {
 
 	// the message lives in a receive buffer of the size the real receiver uses; the bytes behind
 	// it are stale data of an earlier datagram
-	buf := bytes.Repeat([]byte("|old:1|c\n"), 0xffff/9+4)[:0xffff+16]
-	copy(buf, dg)
 	var doneCalls int64
-	send := func(msg []byte) string {
-		d := &statsd.Datagram{IP: "10.1.2.3", Msg: msg, Timestamp: 10, DoneFunc: func() { atomic.AddInt64(&doneCalls, 1) }}
-		for _, batch := range [][]*statsd.Datagram{{d}, nil} { // the empty batch returns once the first one is accounted
+	mk := func(msg string) *statsd.Datagram {
+		buf := bytes.Repeat([]byte("|old:1|c\n"), 0xffff/9+4)[:0xffff+16]
+		copy(buf, msg)
+		return &statsd.Datagram{IP: "10.1.2.3", Msg: buf[:len(msg)], Timestamp: 10, DoneFunc: func() { atomic.AddInt64(&doneCalls, 1) }}
+	}
+	send := func(ds ...*statsd.Datagram) string {
+		for _, batch := range [][]*statsd.Datagram{ds, nil} { // the empty batch returns once the first one is accounted
 			select {
 			case ch <- batch:
 			case m := <-panicked:
@@ -159,40 +179,58 @@ func runDgram(in input) hlib.Case {
 		}
 		return ""
 	}
-	nlines := lineCount(dg)
-	obs := map[string]interface{}{"text": abbreviate(dg), "lines": nlines}
+	nlines := 0
+	var ds []*statsd.Datagram
+	coqMsgs := make([]string, len(msgs))
+	for i, m := range msgs {
+		nlines += lineCount(m)
+		ds = append(ds, mk(m))
+		coqMsgs[i] = hlib.Bytes(m)
+	}
+	obs := map[string]interface{}{"text": abbreviate(dg), "lines": nlines, "datagrams": len(msgs)}
 	c.Obs = obs
-	fail := send(buf[:len(dg)])
+	fail := ""
+	if in.Batch {
+		fail = send(ds...)
+	} else {
+		for _, d := range ds {
+			if fail = send(d); fail != "" {
+				break
+			}
+		}
+	}
 	if fail == "" {
 		fail = flush()
 	}
 	outcome := "ok"
 	if fail != "" {
 		c.Monitors = append(c.Monitors, "datagram parser "+fail)
+		if strings.HasPrefix(fail, "wedged") {
+			c.Monitors = append(c.Monitors, fatalMark)
+		}
 		obs["failure"] = fail
 		outcome = "died"
 		if strings.HasPrefix(fail, "panic") {
-			c.Coq = hlib.App("KDgram", hlib.Bytes(in.NS), hlib.Bytes(dg), dgramOracle(dg), "DPanic")
+			c.Coq = hlib.App("KDgram", hlib.Bytes(in.NS), hlib.List(coqMsgs), dgramOracle(msgs), "DPanic")
 		}
 	} else {
 		m, e, b := st.get("parser.metrics_received"), st.get("parser.events_received"), st.get("parser.bad_lines_seen")
 		obs["metrics"], obs["events"], obs["bad"] = m, e, b
-		c.Coq = hlib.App("KDgram", hlib.Bytes(in.NS), hlib.Bytes(dg), dgramOracle(dg), hlib.App("DCounts", hlib.N(m), hlib.N(e), hlib.N(b)))
+		c.Coq = hlib.App("KDgram", hlib.Bytes(in.NS), hlib.List(coqMsgs), dgramOracle(msgs), hlib.App("DCounts", hlib.N(m), hlib.N(e), hlib.N(b)))
 		if int(m+e+b) != nlines {
 			c.Monitors = append(c.Monitors, fmt.Sprintf("line accounting: %d metrics + %d events + %d bad != %d lines", m, e, b, nlines))
 		}
 		if ev := atomic.LoadInt64(&h.events); uint64(ev) != e {
 			c.Monitors = append(c.Monitors, fmt.Sprintf("%d events dispatched, %d counted", ev, e))
 		}
-		if mp := atomic.LoadInt64(&h.maps); (mp == 1) != (m > 0) || mp > 1 {
-			c.Monitors = append(c.Monitors, fmt.Sprintf("%d metric maps dispatched for %d metrics", mp, m))
+		if mp := atomic.LoadInt64(&h.maps); (mp >= 1) != (m > 0) || mp > int64(len(msgs)) {
+			c.Monitors = append(c.Monitors, fmt.Sprintf("%d metric maps dispatched for %d metrics in %d datagrams", mp, m, len(msgs)))
 		}
-		if dc := atomic.LoadInt64(&doneCalls); dc != 1 {
-			c.Monitors = append(c.Monitors, fmt.Sprintf("DoneFunc called %d times", dc))
+		if dc := atomic.LoadInt64(&doneCalls); dc != int64(len(msgs)) {
+			c.Monitors = append(c.Monitors, fmt.Sprintf("DoneFunc called %d times for %d datagrams", dc, len(msgs)))
 		}
 		// processing of later input continues
-		probe := []byte("verif.after:1|c\n_e{1,1}:a|b")
-		if f := send(probe); f != "" {
+		if f := send(mk("verif.after:1|c\n_e{1,1}:a|b")); f != "" {
 			c.Monitors = append(c.Monitors, "datagram parser after the case: "+f)
 		} else if f := flush(); f != "" {
 			c.Monitors = append(c.Monitors, "datagram parser after the case: "+f)
